@@ -381,3 +381,82 @@ inductive CastRule where
             raise ExtractError("get_size: arms do not cover ScalarType")
         out.append(T.footer("EvalTable"))
         return "".join(out)
+
+
+    # ----------------------------------------------------------------------------------------------
+    # EvalSites: every call of evaluate_constexpr outside evaluator.rs — which function makes it, which
+    # expression it passes, where that expression comes from and whether it is reassigned in between
+    # ----------------------------------------------------------------------------------------------
+    @gen("EvalSites")
+    def eval_sites():
+        import os
+        from rustsrc import strip_comments, read
+        roots = ["typer/src", "ir/src", "parser/src", "preprocess/src", "formatter/src", "hlsl/src", "msl/src", "src", "ast/src", "text/src"]
+        files = []
+        for r in roots:
+            base = os.path.join(T.REPO, r)
+            for dp, _, fns in os.walk(base):
+                for fn in sorted(fns):
+                    if fn.endswith(".rs"):
+                        files.append(os.path.relpath(os.path.join(dp, fn), T.REPO))
+        files = sorted(set(files))
+        sites = []
+        for rel in files:
+            if "/tests/" in rel or rel.endswith("typer/src/evaluator.rs"):
+                continue
+            text = strip_comments(read(os.path.join(T.REPO, rel)))
+            for m in re.finditer(r"\bevaluate_constexpr\s*\(", text):
+                if re.search(r"use\s+[^;]*$", text[:m.start()].split("\n")[-1]):
+                    continue
+                close = matching(text, m.end() - 1)
+                args = [normws(a) for a in text[m.end():close].split(",")]
+                if len(args) != 2:
+                    raise ExtractError(f"{rel}: evaluate_constexpr call with {len(args)} arguments")
+                # enclosing fn
+                fns = list(re.finditer(r"\bfn\s+([A-Za-z_][A-Za-z0-9_]*)", text[:m.start()]))
+                if not fns:
+                    raise ExtractError(f"{rel}: call outside a function")
+                encl = None
+                for fm in reversed(fns):
+                    # the body of this fn must contain the call
+                    j = fm.end()
+                    while j < len(text) and text[j] not in "{;":
+                        j = matching(text, j) + 1 if text[j] in "([" else j + 1
+                    if j < len(text) and text[j] == "{" and matching(text, j) > m.start():
+                        encl = fm
+                        break
+                if encl is None:
+                    raise ExtractError(f"{rel}: enclosing function of a call not found")
+                fname = encl.group(1)
+                body = text[encl.start():m.start()]
+                base = re.sub(r"^&\s*", "", args[0])
+                base = re.sub(r"\.0$", "", base)
+                if not re.fullmatch(r"[A-Za-z_][A-Za-z0-9_]*", base):
+                    raise ExtractError(f"{rel}:{fname}: argument {args[0]!r} is not a plain binding")
+                origin, mutated = "unknown", False
+                lets = list(re.finditer(r"\blet\s+(?:mut\s+)?(?:\(\s*)?" + base + r"\b[^=;]*=\s*", body))
+                if lets:
+                    rest = body[lets[-1].end():]
+                    rhs = normws(rest.split(";")[0])
+                    for callee in ["parse_expr_internal", "parse_expr", "ir::Expression::IntrinsicOp"]:
+                        if re.search(r"\b" + re.escape(callee) + r"\s*\(", rhs):
+                            origin = callee
+                            break
+                    else:
+                        origin = "let:" + rhs[:40]
+                    mutated = bool(re.search(r"\b" + base + r"(?:\.0)?\s*=[^=]", rest))
+                elif re.search(r"ir::Initializer::Expression\(\s*" + base + r"\s*\)", body):
+                    origin = "initializer-expression"
+                elif re.search(r"\|\s*" + base + r"\s*:\s*&ir::Expression\s*\|", body):
+                    origin = "closure-parameter"
+                sites.append((rel, fname, args[0], args[1], origin, mutated))
+        if not sites:
+            raise ExtractError("no call of evaluate_constexpr found")
+        out = [T.header("EvalSites", ["every .rs file of the workspace"])]
+        out.append("/-- (file, enclosing fn, expression argument, module argument, origin of the expression, reassigned before the call) -/\n")
+        out.append("def evalSites : List (String × String × String × String × String × Bool) := [\n")
+        out.append(",\n".join(f"  ({lean_str(a)}, {lean_str(b)}, {lean_str(c)}, {lean_str(d)}, {lean_str(e)}, {str(f).lower()})"
+                               for a, b, c, d, e, f in sites))
+        out.append("]\n")
+        out.append(T.footer("EvalSites"))
+        return "".join(out)
